@@ -46,6 +46,8 @@ type Contract struct {
 	Loops    map[int]*LoopSpec
 	Replay   []string
 	Opts     map[string]string
+	LitGen   string // for literal units: key of the enclosing function
+	LitSel   string // selector of the literal(s): calls:<fn> | exec#<k> | makefunc#<k>
 	used     bool
 }
 
@@ -215,12 +217,17 @@ func parseHeader(s string) (key string, params, results []string, err error) {
 	// forms: name(a, b) (r, ok)   |  (Recv) name(a) (r)
 	s = strings.TrimSpace(s)
 	recv := ""
+	recvName := ""
 	if strings.HasPrefix(s, "(") {
 		j := strings.Index(s, ")")
 		recv = strings.TrimSpace(s[1:j])
 		recv = strings.TrimPrefix(recv, "*")
 		if f := strings.Fields(recv); len(f) == 2 {
+			recvName = f[0]
 			recv = strings.TrimPrefix(f[1], "*")
+		} else {
+			recvName = recv // "(interp) run(...)": the receiver is named, its type is found by the method name
+			recv = ""
 		}
 		s = strings.TrimSpace(s[j+1:])
 	}
@@ -231,6 +238,9 @@ func parseHeader(s string) (key string, params, results []string, err error) {
 	name := strings.TrimSpace(s[:i])
 	j := strings.Index(s, ")")
 	ps := strings.TrimSpace(s[i+1 : j])
+	if recvName != "" {
+		params = append(params, recvName)
+	}
 	if ps != "" {
 		for _, p := range strings.Split(ps, ",") {
 			params = append(params, strings.TrimSpace(p))
@@ -329,6 +339,22 @@ func (db *ContractDB) loadFile(fn string) error {
 			cl.Label = ""
 			db.Preds[pkg+"."+key] = &Pred{Name: key, Params: ps, Body: cl}
 			cur = nil
+			continue
+		}
+		if word == "lit" {
+			// lit <GenKey> <selector> (params) (results)
+			f := strings.Fields(rest)
+			if len(f) < 3 {
+				return fmt.Errorf("%s:%d: lit needs <function> <selector> (params) (results)", fn, ln+1)
+			}
+			hdr := strings.TrimSpace(strings.TrimPrefix(strings.TrimSpace(strings.TrimPrefix(rest, f[0])), f[1]))
+			_, ps, rs, err := parseHeader("lit" + hdr)
+			if err != nil {
+				return fmt.Errorf("%s:%d: %v", fn, ln+1, err)
+			}
+			cur = &Contract{File: fn, Line: ln + 1, Pkg: pkg, Key: f[0] + "/" + f[1], Params: ps, Results: rs, Ints: "math", Loops: map[int]*LoopSpec{}, Opts: map[string]string{}, LitGen: f[0], LitSel: f[1]}
+			db.All = append(db.All, cur)
+			curLoop = nil
 			continue
 		}
 		if word == "func" {
